@@ -75,7 +75,58 @@ func C18(e *Env) {
 		"the texts of the three diagnostics")
 }
 
-var wiringC18 = func(e *Env) {}
+// wiringC18: the validator is built from the build version, and from nothing that was derived from it.
+var wiringC18 = func(e *Env) {
+	r := e.R
+	gm, _, ok := e.models()
+	if ok {
+		iv := gm.Service("inputValidator")
+		okW := ctorIs(e, iv, inputRel, "NewDefaultValidator") && len(iv.Args) == 1 && depIs(iv.Args[0], "param", "version")
+		r.Check(okW, "R18.5", selfRel+"#service:inputValidator", "the input validator is NewDefaultValidator(%version%): the bare version, not the display string that carries commit and build date")
+		if ov := buildRunnerOverrides(e); ov != nil {
+			r.Check(ov.params["version"] == "version", "R18.5", "internal/cmd.buildRunner#param:version", "the version parameter is the payload's version field")
+		} else {
+			r.Undecide("R18.5", "internal/cmd.buildRunner", "anchor not found")
+		}
+	}
+	// the version string reaches NewVersionValidator as it was received, through every function on the way
+	// from the wiring (NewDefaultValidator, called by the generated container) down to the constructor
+	n := 0
+	var follow func(target *ssa.Function, idx int, depth int)
+	seenT := map[string]bool{}
+	follow = func(target *ssa.Function, idx int, depth int) {
+		k := fmt.Sprintf("%s#%d", target.String(), idx)
+		if depth > 6 || seenT[k] {
+			return
+		}
+		seenT[k] = true
+		for _, fn := range e.P.Funcs() {
+			if isGeneratedFn(e.P, rootFn(fn)) {
+				continue
+			}
+			for _, c := range callsIn(fn, false) {
+				if c.Common().StaticCallee() != target || idx >= len(c.Common().Args) {
+					continue
+				}
+				n++
+				arg := c.Common().Args[idx]
+				prm, isParam := arg.(*ssa.Parameter)
+				r.Check(isParam, "R18.5", e.P.FuncKey(fn)+" -> "+target.Name()+"#version-unchanged", "the version handed on towards NewVersionValidator is the caller's own parameter, on every path (not rewritten, cleared or defaulted for some shapes of version)", e.P.Pos(c.Pos()))
+				if isParam {
+					for i, q := range fn.Params {
+						if q == prm {
+							follow(fn, i, depth+1)
+						}
+					}
+				}
+			}
+		}
+	}
+	if nv := e.P.Func(inputRel, "NewVersionValidator"); nv != nil {
+		follow(nv, 0, 0)
+	}
+	r.Check(n >= 1, "R18.5", inputRel+".NewVersionValidator#called", fmt.Sprintf("the version validator is constructed in module code (%d call sites)", n))
+}
 
 // The version decision may be split over ValidateVersion and helpers of its package it calls directly
 // (e.g. a wrapper that prefixes the error and a function that compares). The rules treat them as one
